@@ -150,3 +150,20 @@ def derived_eq_ok(lib):
             return True   # foreign impl (primitives, Option, ...)
         return bool(info.get("derived"))
     return ok
+
+
+def share(module, ctx, rep, rule_ids, key_prefixes=None, floors=None):
+    """Evaluate another property's module and adopt only the named rules (optionally only the instances whose key
+    starts with one of `key_prefixes`) into `rep`. Used where one structural rule is a necessary condition of several
+    properties; the rule keeps its home id."""
+    from lib.report import Report
+    tmp = Report(rep.prop, rep.tier, rep.seed)
+    module.run(ctx, tmp)
+    for r in tmp.rules:
+        if r.id not in rule_ids:
+            continue
+        if key_prefixes is not None:
+            r.instances = [i for i in r.instances if i["key"].startswith(tuple(key_prefixes))
+                           or i["key"].startswith("anchor-missing")]
+            r.floor = (floors or {}).get(r.id, 1)
+        rep.rules.append(r)
